@@ -195,7 +195,7 @@ def run_pool(modname, jobs, tier, seed, replay_dir, njobs, verbose):
             p.start()
             cc.close()
             probing[p.pid] = (idx, mode)
-            limit = getattr(inst, 'wall', None) or (inst.timeout * 40 + 120)
+            limit = getattr(inst, 'wall', None) or (inst.timeout * 12 + 90)
             if tier == 'thorough':
                 limit *= 4
             running[p.pid] = (p, pc, inst, time.time() + limit, time.time())
